@@ -17,6 +17,7 @@ import json
 
 import numpy as np
 
+from . import curve_common
 from .. import core, comps, plants
 from ..core import enc, dec, close, frac
 from feems.components_model.component_base import BasicComponent, SerialSystem
@@ -29,6 +30,9 @@ THEOREMS = ["clamp_bounds", "fwd_ratio", "fwd_supply_ge_delivery", "fwd_reverse_
             "exact_inverse_no_energy", "roundtrip_exact", "roundtrip_exact'", "interp_inverse_partial", "knot_spacing",
             "strict_zero_residual", "array_eq_scalar", "serial_eff_bounds", "serial_equal_ratings", "serial_two_stage",
             "legacy_abscissa_wrong", "machine_roles"]
+THEOREMS += curve_common.CURVE_THEOREMS["C06"]       # the interpolation rule of the curves (FeemsProofs/CurveProps.lean)
+EXTRA_PROOF_MODULES = curve_common.PROOF_MODULES
+DEPENDS_ON_MODULES = curve_common.DEPENDS
 
 
 # ---------------------------------------------------------------- oracles
@@ -81,6 +85,10 @@ def gen_case(rng, idx):
         case["strict"] = bool(rng.random() < 0.3)
         if len(case["curve"]) == 1 and not isinstance(case["curve"][0], list) and rng.random() < 0.4:
             case["curve_form"], case["pair_load"] = "pair", float(rng.choice([1.0, 0.5, 0.75]))
+        elif kind == "basic" and rng.random() < 0.35:
+            # the same component described by a CSV file (the `file_name` route of the constructor: rating, speed and the curve's
+            # columns "Efficiency@<load>%" as the repository's own tests write them) - seeded change C06-r6
+            case["from_file"] = True
     elif kind in ("serial", "pti_pto"):
         n = int(rng.integers(2, 4))
         equal = rng.random() < 0.5
@@ -125,8 +133,31 @@ def curve_of(case):
     return comps.curve_array(case["curve"])
 
 
+def basic_from_file(case):
+    import os
+    import tempfile
+    import pandas as pd
+    curve = case["curve"]
+    cols, vals = ["Switchboard No", "Rated Power", "Rated Speed"], [1, case["rated"], 900.0]
+    if len(curve) == 1 and not isinstance(curve[0], list):
+        cols.append("Efficiency"); vals.append(curve[0])
+    else:
+        for load, eff in curve:
+            cols.append("Efficiency@{}%".format(load)); vals.append(eff)
+    fd, path = tempfile.mkstemp(suffix=".csv", dir=os.environ.get("VERIF_OUT") or None)
+    os.close(fd)
+    try:
+        pd.DataFrame([vals], columns=cols, index=["conv"]).to_csv(path)
+        core.axis("described_by", "csv file")
+        return ElectricComponent(type_=TypeComponent.POWER_CONVERTER, power_type=TypePower.NONE, file_name=path, switchboard_id=SwbId(1))
+    finally:
+        os.unlink(path)
+
+
 def build(case):
     k, rated = case["kind"], case["rated"]
+    if k == "basic" and case.get("from_file"):
+        return basic_from_file(case)
     if k == "basic":
         return ElectricComponent(type_=TypeComponent.POWER_CONVERTER, name="conv", rated_power=Power_kW(rated), eff_curve=curve_of(case),
                                  power_type=TypePower.NONE, switchboard_id=SwbId(1))
@@ -512,6 +543,7 @@ def run(ctx):
         ctx.case_done(signature=sig if ok else None, sample=case if ci in (ncorp, ncorp + 1) else None)
     ctx.extra["corpus_cases"] = ncorp
 
+    curve_common.run_curves(ctx, "efficiency", 60, 1500)
 
 def search(ctx):
     for i in range(2000):
@@ -523,7 +555,10 @@ def search(ctx):
 def replay(data):
     ctx = core.Ctx("C06", "quick", data.get("seed", 0))
     ctx.model_available = core.DRIVER.exists()
-    run_case(ctx, data["case"]["case"])
+    if data["case"]["case"].get("kind") == "curve":
+        curve_common.replay_curve(ctx, data["case"]["case"])
+    else:
+        run_case(ctx, data["case"]["case"])
     for f in ctx.failures:
         print(f"{f['kind']}: {f['tag']}: {f['what'][:300]}")
     if ctx._model:
